@@ -20,8 +20,7 @@ def pointObs (p : Point) : PointObs :=
     time := p.time
     fieldKeys := (iterFields (p.fields.length + 1) p.fields).map (·.key)
     clean := (pointTags p.key).isSome &&
-      (iterFields (p.fields.length + 1) p.fields).all fieldClean &&
-      (match pointFields p.fields with | .ok _ => true | .error _ => false) }
+      (iterFields (p.fields.length + 1) p.fields).all fieldClean }
 
 def modelObs (prec : String) (dt : Int) (buf : Bytes) : Obs :=
   let rs := parseLines buf dt prec
